@@ -283,9 +283,17 @@ class TranslatorC(Translator):
                         ">>": "rshift",
                         "a>>": "a_rshift"
                     }
-                    out = "bignum_%s(%s, bignum_to_uint64(%s))" % (
-                        op[expr.op], arg0, arg1
-                    )
+                    # The count is an arbitrary value of the operation size:
+                    # saturate it instead of truncating it to an int
+                    count = "bignum_to_shift_count(%s)" % arg1
+                    if expr.op == "a>>":
+                        out = "bignum_a_rshift(%s, %d, %s)" % (
+                            arg0, expr.size, count
+                        )
+                    else:
+                        out = "bignum_%s(%s, %s)" % (
+                            op[expr.op], arg0, count
+                        )
                     out = "bignum_mask(%s, %d)"% (out, expr.size)
                 return out
 
@@ -345,8 +353,12 @@ class TranslatorC(Translator):
                         ">>>": "ror",
                         "<<<": "rol"
                     }
-                    out = "bignum_%s(%s, %d, bignum_to_uint64(%s))" % (
-                        op[expr.op], arg0, expr.size, arg1
+                    # Rotation count is taken modulo the size
+                    count = "bignum_to_uint64(bignum_umod(%s, bignum_from_uint64(%d)))" % (
+                        arg1, expr.size
+                    )
+                    out = "bignum_%s(%s, %d, %s)" % (
+                        op[expr.op], arg0, expr.size, count
                     )
                     out = "bignum_mask(%s, %d)"% (out, expr.size)
                 return out
